@@ -3,7 +3,7 @@
 (* Validates runs of the REAL generator (separate processes, different     *)
 (* PYTHONHASHSEED / working directory) against Determinism.                *)
 (* TRACE_FILE: [ {runs: R, events: [ {ev:"iterate", run, site, order:[..]} *)
-(*                                 | {ev:"respond", run, digest} ]} ]      *)
+(*                                 | {ev:"respond", run, digest, history} ]} ] *)
 (* `order` is the order in which the process iterated a set-typed schema   *)
 (* container (elements numbered by their sorted position), reported by the *)
 (* env-guarded hooks; `digest` is the index of the response bytes among    *)
@@ -24,6 +24,7 @@ TIterate == /\ IsEvent("iterate")
             /\ UNCHANGED <<digests, responded>>
 TRespond == /\ IsEvent("respond")
             /\ Ev[l].run \notin responded
+            /\ Ev[l].history \in {"fresh", "after_other", "after_same"}   \* what the process had generated before this run
             /\ digests' = digests \cup {Ev[l].digest} /\ responded' = responded \cup {Ev[l].run}
             /\ UNCHANGED orders
 Deterministic == Cardinality(digests) <= 1
